@@ -626,8 +626,9 @@ func decodeString(value *reflect.Value, packet []byte, state *stateDecode) (*ref
 	if len(packet) < 2 {
 		return nil, nil, errDecodeEOD
 	}
-	l := binary.BigEndian.Uint16(packet)
-	if len(packet) < int(2+l) {
+	// int arithmetic: 2+l must not wrap around for the lengths 65534 and 65535
+	l := int(binary.BigEndian.Uint16(packet))
+	if len(packet) < 2+l {
 		return nil, nil, errDecodeEOD
 	}
 
